@@ -6,9 +6,12 @@ RETS = [[0], [1], [2], [3], [0], [1], [2]]
 
 
 def spec(setup=(), refresh=(), show=(), closed=(), inputs=(), default=((), None), prompt_none=0, ireq=1, nosep=0,
-         skip=0, pages=0, answer0=0, custom=None):
+         skip=0, pages=0, answer0=0, custom=None, setup_cmds=None):
+    if setup_cmds is not None and custom is None:
+        custom = []
     return [list(setup), list(refresh), list(show), list(closed), [[lib.cps(k), list(c), r] for k, c, r in inputs],
-            [list(default[0]), [] if default[1] is None else [default[1]]], prompt_none, ireq, nosep, skip, pages, answer0] + ([[list(c) for c in custom]] if custom is not None else [])
+            [list(default[0]), [] if default[1] is None else [default[1]]], prompt_none, ireq, nosep, skip, pages, answer0] \
+        + ([[list(c) for c in custom]] if custom is not None else []) + ([list(setup_cmds)] if setup_cmds is not None else [])
 
 
 def gen_case(rng, plausible=True, malformed=False):
@@ -330,6 +333,62 @@ def gen_focus_case(rng, prop):
                           nosep=1 if rng.random() < 0.3 else 0))
     typed = [L(rng.choice(["1", "2", "3", "c", "c", "r"])) for _ in range(rng.randrange(4, 18))]
     return [3000, specs, typed, [], 0, [[0, [3, 0, 0]], [1]]]
+
+
+def gen_setup_case(rng):
+    """Sessions in which setup() itself does something before it reports its result (14-element specs): it pushes
+    another screen (plainly or modally), schedules one, emits a signal, marks, raises, replaces or closes itself."""
+    n = rng.randrange(2, 5)
+    specs = []
+    for i in range(n):
+        others = [x for x in range(n) if x != i]
+
+        def one():
+            r = rng.random()
+            t = rng.choice(others); a = rng.choice([0, 0, 6])
+            if r < 0.30:
+                return [0, t, a]                 # push_screen(other) from setup()
+            if r < 0.45:
+                return [1, t, a]                 # push_screen_modal(other)
+            if r < 0.55:
+                return [3, t, a]                 # schedule_screen(other)
+            if r < 0.70:
+                return [14, rng.randrange(30, 39)]
+            if r < 0.76:
+                return [6]                       # self.redraw() before the screen is a registered signal source
+            if r < 0.80:
+                return [23, rng.randrange(2), 0]
+            if r < 0.84:
+                return [2, t, a]                 # replace_screen(other): setup() removes its own entry
+            if r < 0.87:
+                return [5]                       # close_screen()
+            if r < 0.90:
+                return [4]                       # self.close()
+            if r < 0.93:
+                return [8]
+            if r < 0.95:
+                return [24]                      # process_signals() from setup()
+            if r < 0.97:
+                return [7]
+            return [9]
+        sc = None
+        if rng.random() < 0.6:
+            sc = [one() for _ in range(rng.randrange(1, 3))]
+            if rng.random() < 0.5:
+                sc = [[15, 1, sc, [] if rng.random() < 0.7 else [[14, 39]]]]      # only in the first setup() call
+        r = rng.random()
+        setup = [] if r < 0.7 else rng.choice([[0], [0, 1], [1, 0], [0, 0, 1]])
+        inputs = [("1", [rng.choice([[0, rng.choice(others), 0], [1, rng.choice(others), 0], [14, 1]])], [0]),
+                  ("2", [], rng.choice([[2], [1], [0]])), ("3", [[2, rng.choice(others), 0]], [0])]
+        custom = [[[14, 40 + i]]] if rng.random() < 0.3 else None
+        refresh = [[15, 1, [[22, 0, 0]], []]] if custom else []
+        specs.append(spec(setup=setup, refresh=refresh, inputs=inputs, custom=custom, setup_cmds=sc,
+                          pages=rng.choice([0, 0, 0, 1]), skip=1 if rng.random() < 0.1 else 0,
+                          closed=[[14, 3]] if rng.random() < 0.2 else []))
+    first = rng.sample(range(n), rng.choice([1, 2]))
+    acts = [[0] + [[rng.choice([3, 3, 0]), f, rng.choice([0, 5])] for f in first], [1]]
+    typed = [[lib.cps(rng.choice(["1", "2", "3", "c", "c", "r", "x", "q"]))] for _ in range(rng.randrange(2, 12))]
+    return [3000, specs, typed, [], 0, acts]
 
 
 def gen_adv_case(rng, with_error=False, with_password=False):
